@@ -381,6 +381,14 @@ def prefix_table_reaches_datatypes(ctx, clause):
     T = g.flows(src, labels=("copy",))          # the table object itself, not the tokens expanded with it
     dl = p.func(URI + "decide_literal_type")
     ok = any(g.var(dl, prm) in T for prm in dl.params)
+    if not ok:
+        # or the reader itself rewrites the datatype with its table before the token leaves it: a method that reads the table
+        # and builds `...^^<` + expansion (decided behaviourally by the document-table row "prefixed datatype")
+        cls = p.find_class("BigTtlTriplesYielder")
+        for m in cls.methods.values():
+            src_txt = ast.unparse(m.node)
+            if "self._prefixes[" in src_txt and "^^" in src_txt and '"<"' in src_txt.replace("'", '"'):
+                ok = True
     return [Ob(clause, "R-FLOW", "R-FLOW|prefix-table-reaches|decide_literal_type", dl.loc(), ok,
                "the declared prefixes reach the datatype expansion" if ok else
                "the prefix table of the Turtle reader never reaches decide_literal_type, which only knows the hard-coded prefixes "
@@ -627,6 +635,15 @@ TTL_DOCS = [
      '   .\n',
      [(_I("http://example.org/a"), "http://example.org/p", _I("http://example.org/b")),
       (_I("http://example.org/a"), "http://example.org/q", _L("v", XS + "string"))]),
+    ("a predicate list that ends with '; .' on its own line",
+     '@prefix ex: <http://example.org/> .\n'
+     'ex:a ex:p ex:b ;\n'
+     '   ex:q ex:c ;\n'
+     '   .\n'
+     'ex:d ex:p ex:e .\n',
+     [(_I("http://example.org/a"), "http://example.org/p", _I("http://example.org/b")),
+      (_I("http://example.org/a"), "http://example.org/q", _I("http://example.org/c")),
+      (_I("http://example.org/d"), "http://example.org/p", _I("http://example.org/e"))]),
     ("prefix labels that look like directives (base:, prefix:), full IRIs, blank nodes",
      '@prefix base: <http://example.org/base/> .\n'
      '@prefix prefix: <http://example.org/prefix/> .\n'
@@ -636,6 +653,13 @@ TTL_DOCS = [
      [(_I("http://example.org/base/doc1"), "http://purl.org/dc/terms/title", _L("t", XS + "string")),
       (_I("http://example.org/prefix/x"), "http://example.org/p", _B("_:b1")),
       (_B("_:b1"), "http://example.org/p", _I("http://example.org/base/doc1"))]),
+    ("prefixed datatype declared in the document",
+     '@prefix ex: <http://example.org/> .\n'
+     '@prefix unit: <http://example.org/unit/> .\n'
+     'ex:a ex:w "72.5"^^unit:kilogram ;\n'
+     '   ex:n "5"^^xsd:int .\n',
+     [(_I("http://example.org/a"), "http://example.org/w", _L("72.5", "http://example.org/unit/kilogram")),
+      (_I("http://example.org/a"), "http://example.org/n", _L("5", XS + "int"))]),
     ("@base and relative IRIs, bare numbers",
      '@base <http://example.org/> .\n'
      '@prefix ex: <http://example.org/> .\n'
